@@ -32,6 +32,10 @@ ASSUMPTIONS = [
     "inner loop of socket_read_task is outside the model)",
 ]
 MODELLED_NOT_VERIFIED = [
+    "C10: the Lean reader model (readLoop / readLoopP) covers ONE connected stretch of a connection; what happens to the "
+    "receive buffer across disconnect / reconnect of the same connection object (disconnect() empties it, the long-lived "
+    "socket_read_task carries no bytes over), the real _process_message / _validate_integrity and frames longer than one "
+    "read are covered by the implementation-only oracle (live-connection and history scenarios), not by a theorem",
     "C10: Codec.decode and the inner loop of socket_read_task are hand-modelled (Model/Codec/Decode.lean, Reader.lean) "
     "and compared with the implementation on every run (canonical result incl. consumed length, raw bytes, container tree)",
 ]
